@@ -45,7 +45,7 @@ func VerifLemma_C05C_EnumValuePrefix() {
 		verifAssert(len(w.anns) == 0, "a value name with the enum's prefix is not reported")
 	} else {
 		verifCover("violation")
-		verifAssert(lvExactlyOneAt(w, "value/name", "dir/a.proto"), "a value name without the prefix is reported once at its name location")
+		verifAssert(lvReportedOnlyAt(w, "value/name", "dir/a.proto"), "a value name without the prefix is reported once at its name location")
 	}
 }
 
@@ -72,7 +72,7 @@ func VerifLemma_C05C_EnumZeroValue() {
 	verifAssert(err == nil, "no error")
 	if number == 0 && !refLintHasSuffix(name, eff) {
 		verifCover("suffix violation")
-		verifAssert(lvExactlyOneAt(w, "value/name", "dir/a.proto"), "zero value without the suffix is reported once at its name")
+		verifAssert(lvReportedOnlyAt(w, "value/name", "dir/a.proto"), "zero value without the suffix is reported once at its name")
 	} else {
 		verifAssert(len(w.anns) == 0, "non-zero values and suffixed zero values are not reported")
 	}
@@ -92,7 +92,7 @@ func VerifLemma_C05C_EnumZeroValue() {
 	verifAssert(err == nil, "no error (first value zero)")
 	if nValues > 0 && number != 0 {
 		verifCover("first value non-zero")
-		verifAssert(lvExactlyOneAt(w2, "value/number", "dir/a.proto"), "non-zero first value is reported once at its number")
+		verifAssert(lvReportedOnlyAt(w2, "value/number", "dir/a.proto"), "non-zero first value is reported once at its number")
 	} else {
 		verifAssert(len(w2.anns) == 0, "empty enum or zero first value is not reported")
 	}
@@ -118,7 +118,7 @@ func VerifLemma_C05C_ServiceSuffix() {
 		verifCover("suffixed")
 		verifAssert(len(w.anns) == 0, "suffixed service is not reported")
 	} else {
-		verifAssert(lvExactlyOneAt(w, "svc/name", "dir/a.proto"), "service without the suffix is reported once at its name")
+		verifAssert(lvReportedOnlyAt(w, "svc/name", "dir/a.proto"), "service without the suffix is reported once at its name")
 	}
 }
 
@@ -190,7 +190,7 @@ func VerifLemma_C05C_RPCStandardName() {
 		verifAssert(len(w.anns) == 0, "standard request/response name (or allowed Empty) is not reported")
 	} else {
 		verifCover("violation")
-		verifAssert(lvExactlyOneAt(w, locTag, "dir/a.proto"), "non-standard name is reported once at the type location")
+		verifAssert(lvReportedOnlyAt(w, locTag, "dir/a.proto"), "non-standard name is reported once at the type location")
 	}
 }
 
@@ -236,7 +236,7 @@ func VerifLemma_C05C_PackageRules() {
 	}
 	if len(pkg) > 0 && !match {
 		verifCover("directory mismatch")
-		verifAssert(lvExactlyOneAt(w, path+"/package", path), "package/directory mismatch is reported once at the package")
+		verifAssert(lvReportedOnlyAt(w, path+"/package", path), "package/directory mismatch is reported once at the package")
 	} else {
 		if len(pkg) > 0 {
 			verifCover("directory match")
@@ -265,7 +265,7 @@ func VerifLemma_C05C_PackageRules() {
 	err = handleLintPackageVersionSuffix(w3, lvNewReq(nil), f3)
 	verifAssert(err == nil, "no error (version suffix)")
 	if wantReport {
-		verifAssert(lvExactlyOneAt(w3, "dir/a.proto/package", "dir/a.proto"), "unversioned package is reported once at the package")
+		verifAssert(lvReportedOnlyAt(w3, "dir/a.proto/package", "dir/a.proto"), "unversioned package is reported once at the package")
 	} else {
 		verifAssert(len(w3.anns) == 0, "versioned or absent package is not reported")
 	}
